@@ -105,3 +105,28 @@ def run(ctx, only=None, budget=20.0):
                 shutil.rmtree(d, ignore_errors=True)
     json.dump(results, open(os.path.join(ctx.verif, "build", "sensitivity.json"), "w"), indent=1)
     return 0 if ok_all else 2
+
+
+def run_seeded(ctx, only=None):
+    """regression over the independently seeded changes in /verif/seeded: each must still be caught"""
+    sdir = os.path.join(ctx.verif, "seeded")
+    ok_all = True
+    results = []
+    for d in sorted(os.listdir(sdir)):
+        meta_p = os.path.join(sdir, d, "meta.json")
+        if not os.path.exists(meta_p):
+            continue
+        if only and not any(d.startswith(o) for o in only):
+            continue
+        meta = json.load(open(meta_p))
+        t0 = time.time()
+        rc, out = check_patch(ctx, os.path.join(sdir, d, "patch.diff"), meta["property"], None, None, "quick")
+        what = [ln for ln in out.split("\n") if ln.startswith("violation:")]
+        status = "caught" if rc == 1 else "MISSED (exit %d)" % rc
+        log("%-45s %s %-16s %5.0fs  %s" % (d, meta["property"], status, time.time() - t0, what[0][:140] if what else ""))
+        if rc != 1:
+            ok_all = False
+            log(out[-1200:])
+        results.append((d, status))
+    json.dump(results, open(os.path.join(ctx.verif, "build", "seeded_regression.json"), "w"), indent=1)
+    return 0 if ok_all else 2
